@@ -31,6 +31,22 @@ CLAIMED["C05"] = dict(
     technique="Lean 4 inductive-invariant proof over an LTS + trace-acceptance correspondence under controlled schedules",
     design="DESIGN.md section 4, C05")
 
+CLAIMED["C01"] = dict(
+    text="Lean 4 invariant proof over the thread life-cycle LTS (one record: finishing thread + any number of joiners / try-joiners / detachers, all interleavings, return and myth_exit both as 'finish v'): start function entered at most once, join reads its value only after the target published FREE_READY2 and the value is the returned/exit value, result written once and stable, the joiner registers itself only after its context was saved and is resumed exactly by the target's publish step. Attribute part: for every garbage memory and every sequence of public setters, attr_init leaves no field that create reads unset and only requested fields differ from the defaults; the pinned attr_init is refuted. Tie: random fork-join trees (7 creation modes incl. attr over poisoned memory and NULL id, 6 reaping modes, nested myth_exit) under the schedule controller; traces accepted step by step by the life-cycle model (terminal check: every thread started once, released once); invocation counters / join values / visibility cells / stack canaries as oracle on the implementation.",
+    note="Trusted: Lean kernel; schedule controller (SC interleavings at point granularity); exactly-once dispatch by the run queues is C02, stack/register contents C03; critical sections of the record's spin lock are atomic in the model (only lock-protected fields inside). Visibility of the child's writes under x86-TSO is argued from FIFO store buffers + the unlock's xchg, not machine-checked. Attr field lists are transcribed by hand and tied by the poisoned-memory creations.",
+    technique="Lean 4 inductive-invariant proof over an LTS + trace-acceptance correspondence under controlled schedules",
+    design="DESIGN.md section 4, C01")
+CLAIMED["C12"] = dict(
+    text="Lean 4: (a) life-cycle LTS invariant: the stack is released exactly once, only in the callback after the finished thread's final switch-away and under the record lock; the record is released at most once, only after the thread published and unlocked, and (unless detached) only by the reaper after it read the exit value; (b) ledger of per-worker free lists for any number of workers and any get/release history: blocks in use pairwise distinct, never on a free list, a block on at most one free list, get never returns a block in use, double release rejected; (c) size classes: for 8 <= s <= 2^30 the class block fits, is < 2s, index inside the 31-entry table; stack tops 16-byte aligned inside the page-rounded block and release recovers the block start. Tie: regenerated constants; size-class macro diffed against the model; ledger and life-cycle acceptors on controlled whole-library traces with raw block addresses; ledger oracle + stack canaries on the implementation.",
+    note="Trusted: Lean kernel; mmap returns fresh disjoint page-aligned regions (OS model); schedule controller; memory contents of stacks are not modelled (canaries are an oracle). Requests above 1 GiB leave the size-class table: excluded as unusable requests.",
+    technique="Lean 4 inductive-invariant proofs (life-cycle LTS, free-list ledger) + arithmetic lemmas + trace-acceptance correspondence",
+    design="DESIGN.md section 4, C12")
+CLAIMED["C13"] = dict(
+    text="Lean 4 invariant proof over the life-cycle LTS for both creation modes and all orders of finish vs join / tryjoin(timedjoin) / detach: record and stack released at most once always, and exactly once in every terminal state whose single reaping operation completed (join, successful tryjoin, detach before or after the finish, detach-state attribute); tryjoin reports EBUSY iff the target was not finished at its locked check and then changes nothing; detach touches nothing the running target reads; one-worker ledger theorem: blocks ever obtained from the OS <= peak blocks simultaneously in use (bounded memory). Tie: as C01/C12 plus a 70 000-cycle one-worker soak through all 7 reaping modes measuring distinct blocks and RSS growth.",
+    note="Trusted: Lean kernel; WellUsed (exactly one reaping operation per thread) is the model's `claimed` discipline; timed-join deadline logic is C20; RSS is an OS observable, the theorem is about the ledger's OS model; schedule controller.",
+    technique="Lean 4 inductive-invariant proof over an LTS + ledger theorem + trace-acceptance correspondence + soak",
+    design="DESIGN.md section 4, C13")
+
 NA_REASON = "not yet claimed in this revision: model/theorems/correspondence for this property are still being built (see DESIGN.md section 8 build order); no other technique is substituted"
 
 
